@@ -366,8 +366,17 @@ class TraitInstance(TraitHandler):
         self.set_fast_validate()
         trait = object.base_trait(name)
         handler = trait.handler
-        if (handler is not self) and hasattr(handler, "item_trait"):
-            trait = handler.item_trait
+        if handler is not self:
+            set_validate = getattr(handler, "set_validate", None)
+            if set_validate is not None:
+                # The outer handler is a TraitCompound: recompute its table
+                # instead of replacing it by the instance-only validator.
+                set_validate()
+                if getattr(handler, "fast_validate", None) is not None:
+                    trait.set_validate(handler.fast_validate)
+                return
+            if hasattr(handler, "item_trait"):
+                trait = handler.item_trait
         trait.set_validate(self.fast_validate)
 
     def find_class(self, klass):
